@@ -334,8 +334,7 @@ def _check_eval_sites(ctx: Ctx) -> None:
             fl = get_flow(proj, caller)
             _tree_provenance(ctx, cg, caller, fl, call.args[0] if call.args else None, call, 0)
     ctx.count('call_sites', sites)
-    if sites < 2:
-        raise AnalysisError(f'C03.R1: only {sites} evaluation sites found (at least the evaluate* API and the view filter are expected)')
+    ctx.need(not (sites < 2), f'C03.R1: only {sites} evaluation sites found (at least the evaluate* API and the view filter are expected)')
 
 
 GATE_Q = {'callq:expr_parser.parse_expression', 'callq:expr_parser.parse', 'callq:parse_expression'}
